@@ -50,6 +50,8 @@ def cases(draw, rl):
             s["pool"] = min(s.get("pool", 20), 40)
     n = draw(st.integers(1, 10))
     cfg["max_batches"] = n
+    # early stopping is part of the configuration too (it must behave the same in every variant)
+    cfg["convergence_precision"] = draw(st.sampled_from([None, None, 0, 0, 1]))
     variants = []
     for v in range(3):
         variants.append({"n_jobs": [1, 2, 4][v] if draw(st.integers(0, 3)) else draw(st.sampled_from([1, 2, 4])),
@@ -77,7 +79,7 @@ def check_pure(ctx: Ctx, case):
     nontrivial = len(nj) >= 2 and len(sd) >= 2 and stateful and (rl or n >= len(kinds))
     ctx.count(sub, case, nontrivial, [f"loss={cfg['loss']['kind']}", f"d={len(cfg['space']['lo'])}", f"E={cfg['E']}"] +
               sorted({f"has-{k}" for k in kinds}))
-    results = []
+    results, raised = [], []
     for vi, var in enumerate(variants):
         folder = tempfile.mkdtemp(prefix="c01-") if var["folder"] else None
         try:
@@ -91,14 +93,21 @@ def check_pure(ctx: Ctx, case):
                 ctx.fail("C01/rl-saving-folder-raises", f"RL scheduler + saving folder: calibrate() raises {type(e).__name__}: "
                          f"{str(e)[:80]} while the same configuration without a folder runs", sub, case)
                 continue
-            from harness.checks.c03 import third_party
-            if third_party(e):
-                raise Inconclusive(f"third-party {type(e).__name__} inside calibrate") from e
-            with guard(ctx, "C01/exception", sub, case):
-                raise
+            # an exception is an outcome like any other: purity only demands that every variant has the same one
+            raised.append((vi, type(e).__name__, str(e)[:100]))
         finally:
             if folder:
                 shutil.rmtree(folder, ignore_errors=True)
+    if raised and results:
+        vi, tname, msg = raised[0]
+        ctx.fail("C01/variants-differ", f"variant {vi} raises {tname} ({msg}) while variant {results[0][0]} of the same "
+                 "configuration completes", sub, case)
+        return
+    if raised:
+        if len({t for _, t, _ in raised}) > 1:
+            ctx.fail("C01/variants-differ", f"variants fail differently: {raised}", sub, case)
+            return
+        raise Inconclusive(f"every variant raises {raised[0][1]} (degenerate configuration, not a purity matter)")
     if len(results) < 2:
         return
     v0, h0, r0 = results[0]
